@@ -178,7 +178,7 @@ def job(job):
     concrete = [a['name'] for a in sp['assets']]
     if name == 'coreLang':
         concrete = ['Application', 'Data', 'Network', 'Credentials', 'Identity', 'SoftwareVulnerability']
-    table = modelgen.assoc_table(sp)
+    table = modelgen.assoc_table(sp, fx.factory)
     if name == 'coreLang':
         table = [ac for ac in table if any(L.is_sub(t, ac['lt']) for t in concrete) and any(L.is_sub(t, ac['rt']) for t in concrete)][:12]
     for ac in table:
